@@ -21,6 +21,10 @@ const char * const vh_reader_names[VR__N] = { "Int32", "UInt32", "Int64", "UInt6
     "ArrayFloat", "ArrayDouble", "Expr", "RawChoice" };
 
 /* choice names are not header keywords: they may end in digits (CH1, TTL0) without being "keyword + numeric suffix" */
+#ifdef VH_LE_POINTER
+static const char vh_le_text[] = "\r\n";
+const char * vh_line_ending = vh_le_text;
+#endif
 const scpi_choice_def_t vh_choices[] = { {"LOW", 1}, {"HIgh", 2}, {"MEDium", 3}, {"SOURce", 10}, {"CH1", 21}, {"TTL0", 22}, {"EXTernal2", 23}, {"P25V", 24}, SCPI_CHOICE_LIST_END };
 
 /* ---- the SCPI_PARSER_VERIF hook ------------------------------------------------- */
@@ -177,20 +181,22 @@ static void decoy_run(void) {
     static const char msg[] = "DEC7:NUM3 2 V;:DEC:LIST (5,1:2);Q?;:DEC:NOPE;:SYST:ERR?\n";
     static const char want_log[] = "[7,3|20](5)(1:2)<2>"; /* "V" means 10 seconds in the decoy's own unit table (which has no name for plain seconds); NO_MORE after two entries */
 #if VH_HAS_INFO
-    static const char want_out[] = "15,\"m\"\"q\",#12ab;-113,\"Undefined header;:DEC:NOPE;\"" SCPI_LINE_ENDING; /* the library reports the unit as written, separator included */
+    static const char want_body[] = "15,\"m\"\"q\",#12ab;-113,\"Undefined header;:DEC:NOPE;\""; /* the library reports the unit as written, separator included */
 #else
-    static const char want_out[] = "15,\"m\"\"q\",#12ab;-113,\"Undefined header\"" SCPI_LINE_ENDING;
+    static const char want_body[] = "15,\"m\"\"q\",#12ab;-113,\"Undefined header\"";
 #endif
+    char want_out[sizeof want_body + 8]; size_t want_len;
     if (decoy_busy) return;
     decoy_busy = 1;
+    want_len = (size_t) snprintf(want_out, sizeof want_out, "%s%s", want_body, SCPI_LINE_ENDING);
     if (!decoy) { decoy = vh_ctx_new(decoy_cmds, 96, 3, 80); decoy->ctx->units = decoy_units; decoy->log_enabled = 0; }
     vh_ctx_clear_capture(decoy); decoy_log_n = 0; decoy_log[0] = 0;
     { char * copy = (char *) malloc(sizeof msg - 1); memcpy(copy, msg, sizeof msg - 1); SCPI_Input(decoy->ctx, copy, (int) (sizeof msg - 1)); free(copy); }
     decoy_runs++; vh_count("decoy.messages_run_on_a_second_context", 1);
-    if (strcmp(decoy_log, want_log) != 0 || decoy->out.len != sizeof want_out - 1 || memcmp(decoy->out.p, want_out, sizeof want_out - 1) != 0 || decoy->nflush != 1 || SCPI_ErrorCount(decoy->ctx) != 0) {
+    if (strcmp(decoy_log, want_log) != 0 || decoy->out.len != want_len || memcmp(decoy->out.p, want_out, want_len) != 0 || decoy->nflush != 1 || SCPI_ErrorCount(decoy->ctx) != 0) {
         char key[64]; snprintf(key, sizeof key, "%s:second-context-disturbed", vh_args.property);
         vh_violation(key, "a second context of the same process, running its own fixed message between the calls of this case, decoded [%s] and wrote \"%s\" (%u flushes, %d errors left); expected [%s] and \"%s\"",
-                     decoy_log, vh_esc(decoy->out.p ? decoy->out.p : "", decoy->out.len), decoy->nflush, (int) SCPI_ErrorCount(decoy->ctx), want_log, vh_esc(want_out, sizeof want_out - 1));
+                     decoy_log, vh_esc(decoy->out.p ? decoy->out.p : "", decoy->out.len), decoy->nflush, (int) SCPI_ErrorCount(decoy->ctx), want_log, vh_esc(want_out, want_len));
         SCPI_ErrorClear(decoy->ctx);
     }
     decoy_busy = 0;
